@@ -643,8 +643,16 @@ func dnsNameSize(name []byte, m *dnsNameMeta) (int, error) {
 func recSize(rr *DNSResourceRecord) (int, error) {
 	switch rr.Type {
 	case DNSTypeA:
+		if len(rr.IP) == 0 {
+			// no address at all: a record without data, as in the
+			// prerequisite and delete records of a dynamic update
+			return 0, nil
+		}
 		return 4, nil
 	case DNSTypeAAAA:
+		if len(rr.IP) == 0 {
+			return 0, nil
+		}
 		return 16, nil
 	case DNSTypeNS:
 		return dnsNameSize(rr.NS, rr.rdataMeta())
